@@ -2,7 +2,11 @@
 
 package gonum
 
-import "gonum.org/v1/gonum/blas"
+import (
+	"math"
+
+	"gonum.org/v1/gonum/blas"
+)
 
 func verifC01eqC64(a, b complex64, msg string) { verifAssertEqC(complex128(a), complex128(b), msg) }
 
@@ -1059,9 +1063,20 @@ func verifC01z2absFC(x float32) float32 {
 	return float32(verifIteF(x < 0, float64(-x), float64(x)))
 }
 
+// verifC01z2finiteC: the cells are finite values of their type. In model R a symbolic value is an
+// arbitrary real number; code that tests against the largest finite value (math32.IsInf in Scnrm2 is
+// f > MaxFloat32) needs the range stated.
+func verifC01z2finiteC(x []complex64) {
+	for _, v := range x {
+		verifAssume(verifAnd(real(v) <= math.MaxFloat32, real(v) >= -math.MaxFloat32))
+		verifAssume(verifAnd(imag(v) <= math.MaxFloat32, imag(v) >= -math.MaxFloat32))
+	}
+}
+
 // VerifC01_Scasum: result = sum |Re x[i]| + |Im x[i]| over addressed elements; x unchanged.
+// (n <= zl1n: math32.Abs forks three ways per call, the complex64 twin has 9^n paths.)
 func VerifC01_Scasum() {
-	n := verifChoose("n", 0, verifParam("l1n", 4))
+	n := verifChoose("n", 0, verifParam("zl1n", 3))
 	incX := verifC01posinc("incX")
 	slack := verifChoose("slack", 0, 1)
 	x := verifComplex64s("x", verifC01vlen(n, incX, slack))
@@ -1078,7 +1093,7 @@ func VerifC01_Scasum() {
 
 // VerifC01_Icamax: first index of the maximum |Re x[i]|+|Im x[i]| over addressed elements; -1 for n == 0.
 func VerifC01_Icamax() {
-	n := verifChoose("n", 0, verifParam("l1n", 4)-1)
+	n := verifChoose("n", 0, verifParam("zl1n", 3))
 	incX := verifC01posinc("incX")
 	slack := verifChoose("slack", 0, 1)
 	x := verifComplex64s("x", verifC01vlen(n, incX, slack))
@@ -1112,6 +1127,7 @@ func VerifC01_Scnrm2() {
 	incX := verifC01posinc("incX")
 	slack := verifChoose("slack", 0, 1)
 	x := verifComplex64s("x", verifC01vlen(n, incX, slack))
+	verifC01z2finiteC(x)
 	x0 := verifC01zcloneC(x)
 	got := Implementation{}.Scnrm2(n, x, incX)
 	verifC01zsameC(x, x0, "Scnrm2: x unchanged")
